@@ -12,7 +12,7 @@ EXPLANATION = (
     "task consumes instructions from a FIFO channel: enqueue order = program order for every runtime flavour; "
     "(S-BOUND) in Socket::recv every amount appended to the result inside the accumulation loop is bounded by a value "
     "that depends on the buffer's current length, so recv(n) cannot return more than n; (S-REMAINDER) whenever a message "
-    "is truncated the remainder is sliced at the same bound and stored; (S-PEER) SocketAPI::demux looks the session up "
+    "is truncated the remainder is sliced at the same bound and stored; (S-FIFO) the queue that parks messages arriving before accept() is filled at one end and replayed from the other; (S-PEER) SocketAPI::demux looks the session up "
     "under the datagram's (local, remote) endpoints and consults listen bindings only on the miss. Not decided: "
     "byte-exact stream equality across the stack, datagram integrity and loss recovery (runtime behaviour).")
 ASSUMPTIONS = ["tokio mpsc channels are FIFO per sender"]
@@ -177,6 +177,41 @@ def run(ctx):
             if not ({a for a in so if a[0] in ("op", "upvar", "param")} >= {a for a in k2o if a[0] in ("op", "upvar", "param")}):
                 probs.append("the remainder is not cut at the same bound as the bytes taken")
         (ctx.bad if probs else ctx.ok)("S-REMAINDER", key, F.call_loc(t), "; ".join(probs) if probs else "truncation: take(k), slice(k..), stored_message = Some(rest)")
+
+    # ---------------------------------------------------------------- S-FIFO
+    # messages that arrive before accept() are parked in SocketSession.stored_messages and replayed by accept():
+    # the queue must be used first-in first-out
+    IN_BACK, IN_FRONT = {"push_back", "extend", "append"}, {"push_front"}
+    OUT_FRONT, OUT_BACK = {"pop_front", "drain", "into_iter", "iter", "front", "front_mut"}, {"pop_back", "back", "back_mut"}
+    NEUTRAL = {"is_empty", "len", "new", "default", "clear", "with_capacity", "next", "clone"}
+    ops = []
+    for b in prog.bodies.values():
+        if not b.key.startswith("elvis_core::protocols::socket_api"):
+            continue
+        for bb, t in K.calls(b):
+            ck = F.callee_key(t) or ""
+            pretty = (F.callee(t) or {}).get("pretty", "")
+            if not ("vec_deque" in ck or "VecDeque" in pretty) or not F.call_args(t):
+                continue
+            if not dep.has_field(dep.arg_origins(b, bb, 0), "SocketSession", "stored_messages"):
+                continue
+            ops.append((ck.rsplit("::", 1)[-1], b, F.call_loc(t)))
+    ins = [o for o in ops if o[0] in IN_BACK | IN_FRONT]
+    outs = [o for o in ops if o[0] in OUT_FRONT | OUT_BACK and o[0] not in ("front", "front_mut", "back", "back_mut")]
+    ctx.require(len(ins) >= 2 and len(outs) >= 1, "S-FIFO: stored_messages queue operations not found (%d in, %d out)" % (len(ins), len(outs)))
+    odd = [o for o in ops if o[0] not in IN_BACK | IN_FRONT | OUT_FRONT | OUT_BACK | NEUTRAL]
+    back_in = all(o[0] in IN_BACK for o in ins)
+    front_in = all(o[0] in IN_FRONT for o in ins)
+    for nm, b, loc in outs:
+        okk = (back_in and nm in OUT_FRONT) or (front_in and nm in OUT_BACK)
+        (ctx.ok if okk else ctx.bad)("S-FIFO", "S-FIFO:stored_messages:%s@%s" % (nm, b.key.rsplit("::", 1)[-1]), loc,
+            "messages parked before accept() are replayed oldest first (%s after %s)" % (nm, "/".join(sorted({o[0] for o in ins}))) if okk else
+            "messages parked before accept() are stored with %s but replayed with %s: the accepted socket receives them in reverse order" % ("/".join(sorted({o[0] for o in ins})), nm))
+    for nm, b, loc in odd:
+        ctx.bad("S-FIFO", "S-FIFO:stored_messages:%s@%s" % (nm, b.key.rsplit("::", 1)[-1]), loc,
+                "operation %s on the pre-accept message queue is not part of a first-in first-out discipline" % nm)
+    if not (back_in or front_in):
+        ctx.bad("S-FIFO", "S-FIFO:stored_messages:mixed-insert", ins[0][2], "messages are parked at both ends of the queue (%s)" % sorted({o[0] for o in ins}))
 
     # ---------------------------------------------------------------- S-PEER
     dm = prog.method("SocketAPI", "demux", "Protocol")
